@@ -112,8 +112,11 @@ CHECKS = {
              "panic counts as a violation); lal's RTMP pull/push, RTSP pull and HTTP-FLV pull clients against a scripted "
              "loopback upstream. Quick always executes single elements and one-field SDP deviations; udp and psq run "
              "exhaustively; the other surfaces are sampled by seed up to a cap. RTSP server sessions run on in-memory "
-             "connections, PS packets enter at PsUnpacker.FeedRtpPacket. Not decided: TLS, GB28181 TCP framing and sockets, "
-             "relay pull through the API end to end, hangs and CPU spins. RTMP chunk / AMF / FLV input surfaces are covered "
+             "connections, PS packets enter at PsUnpacker.FeedRtpPacket; surface pst drives GB28181 over TCP through the real "
+             "PubSession started by start_rtp_pub (is_tcp_flag=1) on a loopback connection: frame lengths exact / 0 / 1 / "
+             "11 / beyond the data / 65535, split and joined writes, a second connection replacing the first (handover in "
+             "the middle of a large frame), connect-close storms, kick / second start / liveness timeout with and without a "
+             "connection. Not decided: TLS, relay pull through the API end to end, CPU spins. RTMP chunk / AMF / FLV input surfaces are covered "
              "by C08 / C18 / C04 / C05.",
         ref="6/C13"),
     "C20": dict(
@@ -177,10 +180,14 @@ CHECKS = {
              "every step are decided by TLC.",
         note="Sessions are real lal session objects on in-memory connections handed to the real callbacks (accept loops "
              "are not part of the scenario; RTSP publishers run through rtsp.Server's own per-connection routine); "
-             "subscribers are RTMP, HTTP-FLV and HTTP-TS sessions (RTSP / HLS subscribers are not part of this model); "
+             "subscribers are RTMP, HTTP-FLV, HTTP-TS and HLS sessions (HLS: sub-session mode through the HLS entry point, opened by "
+             "the first playlist request, kept alive by requests with the session id, ended by the handler's own once-per-second "
+             "sweep after a real 400 ms timeout or a kick; the clients that keep asking are background requests of the driver, "
+             "and a scenario in which one came late is dropped as inconclusive; RTSP players only as DESCRIBE); "
              "notifications are observed at the NotifyHandler interface and, in configurations L4 / P5, as the JSON posts "
              "of lal's own HttpNotify worker at a stub web hook; Tick runs through the verif hook VerifTick (a copy of the "
-             "loop body); relay pull / push interleavings are covered by C17 (pull configurations P3 / P4 / P5 also here).",
+             "loop body); relay pull / push interleavings are covered by C17 (pull configurations P3 / P4 / P5 and the RTSP-origin twin R3 "
+             "also here).",
         ref="6/C03"),
     "C07": dict(
         technique="TLA+ spec Ingest (property Conforms + design Machine; TLC exhaustive over streams x packings x arrival "
@@ -220,9 +227,13 @@ CHECKS = {
              "branches are covered by the exhaustive fine-grained model only (2-9 % of scenarios are cut short there). RTSP "
              "liveness is accounted at enqueue and has no write deadline: disconnection is by the sweep. Quick takes its "
              "schedules from TLC simulation of the call-level model, thorough from its exhaustive edge cover. Latency is "
-             "wall-clock; a slow scenario is re-run up to 3 times and reported only if it reproduces. Not covered: RTSP over "
-             "UDP, RTSP command responses under back-pressure, the command loop itself, removal of a cut session by the "
-             "server read loop.",
+             "wall-clock; a slow scenario is re-run up to 3 times and reported only if it reproduces. RTMP and RTSP consumers run their real read "
+             "loops: a consumer with data queued sends requests (RTMP ping / createStream, RTSP OPTIONS with CSeq of 1 / 2 / "
+             "5 digits) and each reply is one whole unit that must arrive as it was enqueued (identity = the echoed "
+             "value; ReplyAltered / ReplySplit / ReplyLost). Real-loopback-TCP consumers (one healthy, three stalled with "
+             "16 KB receive buffers; fill, sweep, publish, kick) decide the cost of closing a socket under the group lock "
+             "(every call within 1 s). Not covered: RTSP over UDP, a media frame landing between the two parts of a reply "
+             "(needs two racing producers), TCP variants of the HTTP-FLV / HTTP-TS consumers.",
         ref="6/C15"),
     "C17": dict(
         technique="TLA+ spec Lifecycle (relay pull module: enable / in-flight / attached / retry budget / auto-stop clock; relay "
@@ -231,13 +242,17 @@ CHECKS = {
         text="TLC checks the pull and push invariants over every interleaving of subscriber arrivals, API start / stop / kick, "
              "origin outcomes (accept, refuse, end), publisher arrivals, ticks, elapsed auto-stop windows and push-target "
              "outcomes (accept, refuse, end) for retry budgets 0 / 1 / forever and auto-stop never / immediately / after a "
-             "window; behaviours are replayed into a real ServerManager whose pulls connect to a gated origin and whose "
+             "window; behaviours are replayed into a real ServerManager whose pulls connect to a gated origin (RTMP: a real "
+             "rtmp.ServerSession; RTSP, pull over TCP: a wire-level stub answering OPTIONS / DESCRIBE / SETUP x2 / PLAY) and whose "
              "pushes connect to gated targets (real rtmp.ServerSession on TCP), and API return codes, notifications, the "
              "connection attempts origin and targets saw, the attached push sessions, the length of the URL parameters "
              "that reach the target (300 / 1000 / 70000 bytes) and the stat listing after every step are decided by TLC.",
         note="The auto-stop window is real time (700 ms; stalled scenarios are dropped as inconclusive). Push scenarios run in "
              "child processes so that a panic in a goroutine lal owns is an observation (event Died). Push towards RTSP "
-             "targets does not exist in lal; the push write timeout is not driven.",
+             "targets does not exist in lal; the push write timeout is not driven. An RTSP pull is attached by lal when the "
+             "description arrives; the rest of its set-up (SETUP, PLAY) is part of the same model step (nothing is interleaved "
+             "between DESCRIBE and PLAY), RTSP pull over UDP is not driven, and static relay pull (RTMP only) is not driven. "
+             "An HLS session counts as the consumer auto-stop depends on (configuration H2).",
         ref="6/C17"),
     "C16": dict(
         technique="TLA+ specs Lifecycle (pipeline ownership, hook stop, shutdown, group removal, idle sweep), Fanout (caches / "
